@@ -41,6 +41,7 @@ type vfC13E2ERun struct {
 	gids      map[int64]int // goroutine -> execution (numbered by first iterator call)
 	execOfH   map[int]int   // host index -> execution that picked it last
 	pending   map[int]int   // execution -> attempt the node has seen and the driver has not reported yet
+	unseen    map[int]int   // host -> attempts the driver reported which the node had not seen
 	observer  bool          // "end" events come from the Query/BatchObserver callback
 	delay     time.Duration // the node answers its first request only after this long
 	nodeDone  chan struct{} // closed when the delayed answer has been sent
@@ -79,8 +80,14 @@ func (r *vfC13E2ERun) observed(host *HostInfo, err error) {
 	h := r.hostIdx[host.ConnectAddress().String()]
 	aid, ok := r.pending[e]
 	if !ok {
+		// The node has not seen this attempt: it was refused before the wire (context already
+		// done), or its request is still on its way while the driver has given up.  The two
+		// cannot be told apart from outside; it is logged as refused (the lenient reading: it is
+		// not counted as having reached a server), and if the request does arrive at the node
+		// later it is this attempt, not a new one.
 		r.natt[e]++
 		aid = 10*e + r.natt[e]
+		r.unseen[h]++
 		r.log = append(r.log, vfC13Ev{Ev: "start", E: e, H: h, N: aid, X: "refused"})
 	}
 	delete(r.pending, e)
@@ -125,6 +132,12 @@ func vfC13E2EHandler(addr string) func(nc *vfNodeConn, f *vfFrame, q *vfRequest)
 		r := v.(*vfC13E2ERun)
 		r.mu.Lock()
 		h := r.hostIdx[addr]
+		if r.unseen[h] > 0 { // the late arrival of an attempt the driver has already reported
+			r.unseen[h]--
+			r.mu.Unlock()
+			nc.Reply(f, vfOpResult, vfVoidBody())
+			return true
+		}
 		e := r.execOfH[h]
 		r.natt[e]++
 		r.total++
@@ -326,7 +339,7 @@ func TestVfC13E2E(t *testing.T) {
 	for i := 0; i < n; i++ {
 		id := base + i + 1
 		r := &vfC13E2ERun{id: id, rng: rand.New(rand.NewSource(rng.Int63())), hostIdx: map[string]int{}, classOf: map[int]string{},
-			maxTries: 12, natt: map[int]int{}, gids: map[int64]int{}, execOfH: map[int]int{}, pending: map[int]int{}}
+			maxTries: 12, natt: map[int]int{}, gids: map[int64]int{}, execOfH: map[int]int{}, pending: map[int]int{}, unseen: map[int]int{}}
 		cfgm := vfC13Cfg{K: 0, Idem: rng.Intn(4) != 0, Allow: []int{}, Hosts: []string{}}
 		// scenario: plain / the caller's deadline expires while the (slow) first node has not answered /
 		// a statement that is NOT idempotent with a speculative policy and a slow first node
